@@ -129,6 +129,50 @@ func runC18(c *Ctx) {
 			}
 		}
 	}
+	// the basic types may be held in a package-level table keyed by the type id and consulted with the tag:
+	// every entry is a case, its target the T of reflect.TypeOf((*T)(nil)).Elem()
+	for _, sw := range sws {
+		flow.Instrs(sw.f, func(in ssa.Instruction) {
+			lk, ok := in.(*ssa.Lookup)
+			if !ok {
+				return
+			}
+			gl := loadedGlobal(lk.X)
+			if gl == nil || gl.Pkg == nil || gl.Pkg.Pkg.Path() != pkgDiam || !flow.TypeIs(lk.Index.Type(), pkgDatatype, "TypeID") {
+				return
+			}
+			if tn, fld, _, ok := flow.FieldOf(flow.Peel(lk.Index)); !(ok && tn == "Data" && fld == "Type") && flow.Peel(lk.Index) != flow.Peel(sw.tag) {
+				return
+			}
+			ents, ok := c.globalMapLiteral("diam", gl.Name())
+			if !ok {
+				return
+			}
+			for _, e := range ents {
+				if e.Key == nil {
+					continue
+				}
+				ks := e.Key.ExactString()
+				if _, dup := cases[ks]; dup {
+					continue
+				}
+				caseAt[ks] = lk
+				cases[ks] = nil
+				// value: Elem() of TypeOf(MakeInterface((*T)(nil)))
+				v := e.Value
+				if call, ok := v.(*ssa.Call); ok && call.Call.IsInvoke() && call.Call.Method.Name() == "Elem" {
+					v = call.Call.Value
+				}
+				if call, ok := v.(*ssa.Call); ok && flow.IsCallTo(call, "reflect", "", "TypeOf") {
+					if mi, ok := call.Call.Args[0].(*ssa.MakeInterface); ok {
+						if p, ok := mi.X.Type().(*types.Pointer); ok {
+							cases[ks] = p.Elem()
+						}
+					}
+				}
+			}
+		})
+	}
 	avail, ok := c.globalMapLiteral("diam/datatype", "Available")
 	if !ok {
 		r.Undecided("R1", "role:datatype.Available", "-", "cannot read datatype.Available")
